@@ -1066,6 +1066,12 @@ func ruleBlockOpen(p *Program, r *Reporter) {
 						return true
 					}
 					if cal != nil && pr.parseFns[cal] {
+						// a sub-parser that ends by demanding '{' (the signature of a
+						// function definition parsed by a function of its own): the
+						// block follows on its non-nil result
+						if endsByDemanding(pr, cal, lbrace) && nonNilAt(c2, call) {
+							return true
+						}
 						good, why = false, "a sub-parser runs between the '{' check and the block"
 						return true
 					}
@@ -2086,7 +2092,7 @@ func flagSetByFunctionParselet(p *Program, pr *parserRoles, flag string) bool {
 		builds, sets := false, false
 		for _, b := range fn.Blocks {
 			for _, ins := range b.Instrs {
-				if al, ok := ins.(*ssa.Alloc); ok && isNamed(al.Type(), "ast", "FunctionDefinition") {
+				if buildsFunctionDefinition(ins) {
 					builds = true
 				}
 				if st, ok := ins.(*ssa.Store); ok && fieldKey(st.Addr) == flag {
@@ -2308,4 +2314,58 @@ func worklistSearch(f *ssa.Function, prm ssa.Value) (*ssa.Function, bool) {
 		}
 	}
 	return nil, false
+}
+
+// buildsFunctionDefinition: the instruction allocates an *ast.FunctionDefinition,
+// or calls a method of the parser that hands one back (the signature of the
+// definition parsed by a function of its own).
+func buildsFunctionDefinition(ins ssa.Instruction) bool {
+	if al, ok := ins.(*ssa.Alloc); ok && al.Heap && isNamed(al.Type(), "ast", "FunctionDefinition") {
+		return true
+	}
+	if c, ok := ins.(*ssa.Call); ok && c.Call.StaticCallee() != nil && recvNamed(c.Call.StaticCallee(), "parser", "Parser") {
+		rs := c.Call.StaticCallee().Signature.Results()
+		if rs.Len() >= 1 && isPointer(rs.At(0).Type()) && isNamed(rs.At(0).Type(), "ast", "FunctionDefinition") {
+			return true
+		}
+	}
+	return false
+}
+
+// endsByDemanding: every return of h with a result that is not nil comes
+// after a successful expectation of the token kind, with no move of the parser
+// in between.
+func endsByDemanding(pr *parserRoles, h *ssa.Function, kind string) bool {
+	n := 0
+	for _, b := range h.Blocks {
+		ret, ok := terminator(b).(*ssa.Return)
+		if !ok || len(ret.Results) == 0 || isNilConst(ret.Results[0]) {
+			continue
+		}
+		n++
+		good := true
+		walkBackward(ret, func(ins ssa.Instruction) bool {
+			c, isCall := ins.(*ssa.Call)
+			if !isCall {
+				return false
+			}
+			cal := c.Call.StaticCallee()
+			switch {
+			case pr.isExpect(cal):
+				k, isC := c.Call.Args[1].(*ssa.Const)
+				if !isC || k.Value == nil || k.Value.Kind() != constant.String || constant.StringVal(k.Value) != kind || !expectSuccessDominates(c, ret) {
+					good = false
+				}
+				return true
+			case cal == pr.advance, cal != nil && pr.parseFns[cal]:
+				good = false
+				return true
+			}
+			return false
+		}, func() { good = false })
+		if !good {
+			return false
+		}
+	}
+	return n > 0
 }
